@@ -9,78 +9,186 @@ namespace GitAi.Split3
 
 /-! ## 1. Every attributed working-tree line lands in exactly one bucket -/
 
-/-- **partition.** `classify` is a function into three disjoint buckets: a line goes to
-    `uncommitted` exactly when it is an unstaged line; otherwise to `committed c` when its
-    translated commit coordinate `c = w − #{u ∈ unstaged | u < w}` is one of the lines the commit
-    added, and it is dropped (pre-existing line) when it is not. -/
-theorem classify_spec (committed unstaged : List Nat) (w : Nat) :
-    (w ∈ unstaged → classify committed unstaged w = .uncommitted w) ∧
-    (w ∉ unstaged → (w - (unstaged.filter (· < w)).length) ∈ committed →
-        classify committed unstaged w = .committed (w - (unstaged.filter (· < w)).length)) ∧
-    (w ∉ unstaged → (w - (unstaged.filter (· < w)).length) ∉ committed →
-        classify committed unstaged w = .dropped) := by
+/-- **partition.** `classify` is a function into three disjoint buckets, decided by where the
+    working-tree line sits relative to the unstaged hunks (`locate`): a line no unstaged hunk touches
+    goes to `committed c` when its commit line number `c` is one of the lines the commit added and is
+    dropped (pre-existing line) when it is not; a line added by an unstaged hunk is `uncommitted`
+    (pending, working-tree coordinate) — unless it replaces, offset for offset, a line the commit
+    added (committed, then modified again in the working tree), which the code credits to the commit. -/
+theorem classify_spec (committed : List Nat) (hunks : List Hunk) (w : Nat) :
+    (∀ c, locate hunks w = .unchanged c → c ∈ committed → classify committed hunks w = .committed c) ∧
+    (∀ c, locate hunks w = .unchanged c → c ∉ committed → classify committed hunks w = .dropped) ∧
+    (∀ c, locate hunks w = .replaces c → c ∈ committed → classify committed hunks w = .committed c) ∧
+    (∀ c, locate hunks w = .replaces c → c ∉ committed → classify committed hunks w = .uncommitted w) ∧
+    (locate hunks w = .added → classify committed hunks w = .uncommitted w) ∧
+    (locate hunks w = .invalid → classify committed hunks w = .dropped) := by
   unfold classify
+  refine ⟨?_, ?_, ?_, ?_, ?_, ?_⟩ <;> intros <;> simp_all
+
+theorem classify_committed_mem (committed : List Nat) (hunks : List Hunk) (w c : Nat)
+    (h : classify committed hunks w = .committed c) : c ∈ committed := by
+  unfold classify at h
+  split at h
+  · split at h
+    · rename_i hc; cases h; simpa using hc
+    · cases h
+  · split at h
+    · rename_i hc; cases h; simpa using hc
+    · cases h
+  · cases h
+  · cases h
+
+/-- `added` / `replaces` are only ever answered for a line inside the new range of one of the hunks -/
+theorem locate_in_hunk (hunks : List Hunk) (w : Nat)
+    (h : locate hunks w = .added ∨ ∃ c, locate hunks w = .replaces c) :
+    ∃ g ∈ hunks, g.ns ≤ w ∧ w < g.ns + g.nc := by
+  unfold locate at h
+  rcases hsc : scan w hunks 0 0 none with ⟨r, a, i⟩
+  rw [hsc] at h
+  cases i with
+  | none =>
+    simp only at h
+    split at h <;> simp at h
+  | some g =>
+    rcases scan_inside w hunks 0 0 none r a g hsc with h' | h'
+    · cases h'
+    · exact ⟨g, h'⟩
+
+/-- a line that goes to INITIAL is a line some unstaged hunk adds, reported under its own number -/
+theorem classify_uncommitted_mem (committed : List Nat) (hunks : List Hunk) (w l : Nat)
+    (h : classify committed hunks w = .uncommitted l) :
+    l = w ∧ ∃ g ∈ hunks, g.ns ≤ w ∧ w < g.ns + g.nc := by
+  unfold classify at h
+  cases hl : locate hunks w with
+  | unchanged c => rw [hl] at h; simp only at h; split at h <;> cases h
+  | replaces c =>
+    rw [hl] at h; simp only at h
+    split at h
+    · cases h
+    · cases h; exact ⟨rfl, locate_in_hunk hunks w (Or.inr ⟨c, hl⟩)⟩
+  | added => rw [hl] at h; cases h; exact ⟨rfl, locate_in_hunk hunks w (Or.inl hl)⟩
+  | invalid => rw [hl] at h; cases h
+
+/-! ## 2. The translated coordinate is the true commit line number — for every unstaged change -/
+
+/-- **coordinates (full).** Let the committed file and the working tree be related by ANY edit script
+    (`eq` lines present in both; `chg old new` regions where the commit's lines `old` were replaced
+    by the working-tree lines `new` — pure insertions, pure deletions and replacements alike) and let
+    the hunks be those of `git diff -U0 <commit>` for that script. For every working-tree line `x`
+    that the script keeps (working-tree line number `w = |work before it| + 1`) the code computes
+    `unchanged c` where `c` is exactly the line number of that same line in the commit. No
+    hypothesis on the kind of unstaged change (the theorem that held before the repair,
+    `Old`-model, needed pure insertions: `regression_unstaged_deletion`). -/
+theorem split_coordinates {α} (pre post : List (Seg α)) (x : α)
+    (hsz : (commitOf (pre ++ .eq x :: post)).length ≤ u32Max) :
+    let segs := pre ++ .eq x :: post
+    let w := (workOf pre).length + 1
+    let c := (commitOf pre).length + 1
+    locate (hunksOf segs) w = .unchanged c ∧
+    (workOf segs)[w - 1]? = some x ∧ (commitOf segs)[c - 1]? = some x := by
+  intro segs w c
   refine ⟨?_, ?_, ?_⟩
-  · intro hu; simp [hu]
-  · intro hu hc; simp [hu, hc]
-  · intro hu hc; simp [hu, hc]
+  · have hb := length_balance pre
+    have hc : (workOf pre).length + 1 + olds pre - news pre = (commitOf pre).length + 1 := by omega
+    have h1 : news pre ≤ (workOf pre).length + 1 + olds pre := by omega
+    have h2 : (commitOf pre).length + 1 ≤ u32Max := by
+      simp only [commitOf_append, commitOf, List.length_append, List.length_cons] at hsz; omega
+    show locate (hunksOf (pre ++ .eq x :: post)) ((workOf pre).length + 1) = _
+    unfold locate
+    rw [scan_eq_line]
+    simp only [hc, h1, h2, and_self, if_true]
+    rfl
+  · simp [segs, w, workOf_append, workOf]
+  · simp [segs, c, commitOf_append, commitOf]
 
-theorem classify_committed_mem (committed unstaged : List Nat) (w c : Nat)
-    (h : classify committed unstaged w = .committed c) : c ∈ committed := by
-  by_cases hu : w ∈ unstaged
-  · rw [(classify_spec committed unstaged w).1 hu] at h; cases h
-  · by_cases hc : (w - (unstaged.filter (· < w)).length) ∈ committed
-    · rw [(classify_spec committed unstaged w).2.1 hu hc] at h; cases h; exact hc
-    · rw [(classify_spec committed unstaged w).2.2 hu hc] at h; cases h
+/-- **lines inside an unstaged hunk.** The `k`-th line an unstaged change region adds is never taken
+    for an unchanged line: it `replaces` the commit line at the same offset of the region when the
+    region removes more than `k` commit lines (that commit line number is exact: it is the `k`-th
+    removed line), and is `added` otherwise (always, for a pure insertion). -/
+theorem changed_line_position {α} (pre post : List (Seg α)) (o n : List α) (k : Nat) (hk : k < n.length)
+    (hsz : (commitOf (pre ++ .chg o n :: post)).length ≤ u32Max) :
+    let segs := pre ++ .chg o n :: post
+    let w := (workOf pre).length + k + 1
+    locate (hunksOf segs) w =
+      (if k < o.length then .replaces ((commitOf pre).length + k + 1) else .added) ∧
+    (workOf segs)[w - 1]? = n[k]? ∧
+    (k < o.length → (commitOf segs)[(commitOf pre).length + k + 1 - 1]? = o[k]?) := by
+  intro segs w
+  refine ⟨?_, ?_, ?_⟩
+  · have hb := length_balance pre
+    show locate (hunksOf (pre ++ .chg o n :: post)) ((workOf pre).length + k + 1) = _
+    unfold locate
+    rw [scan_new_line pre post o n k hk]
+    have hoff : (workOf pre).length + k + 1 - ((workOf pre).length + 1) = k := by omega
+    simp only [hoff]
+    by_cases hko : k < o.length
+    · have hc : (workOf pre).length + k + 1 + olds pre - news pre = (commitOf pre).length + k + 1 := by omega
+      have h1 : news pre ≤ (workOf pre).length + k + 1 + olds pre := by omega
+      have h2 : (commitOf pre).length + k + 1 ≤ u32Max := by
+        simp only [commitOf_append, commitOf, List.length_append] at hsz; omega
+      simp only [hko, if_true, hc, h1, h2, and_self]
+    · simp only [hko, if_false]
+  · have : w - 1 = (workOf pre).length + k := by omega
+    rw [this]
+    simp only [segs, workOf_append, workOf]
+    rw [List.getElem?_append_right (by omega)]
+    simp only [Nat.add_sub_cancel_left]
+    rw [List.getElem?_append_left hk]
+  · intro hko
+    have : (commitOf pre).length + k + 1 - 1 = (commitOf pre).length + k := by omega
+    rw [this]
+    simp only [segs, commitOf_append, commitOf]
+    rw [List.getElem?_append_right (by omega)]
+    simp only [Nat.add_sub_cancel_left]
+    rw [List.getElem?_append_left hko]
 
-theorem classify_uncommitted_mem (committed unstaged : List Nat) (w l : Nat)
-    (h : classify committed unstaged w = .uncommitted l) : l ∈ unstaged := by
-  by_cases hu : w ∈ unstaged
-  · rw [(classify_spec committed unstaged w).1 hu] at h; cases h; exact hu
-  · by_cases hc : (w - (unstaged.filter (· < w)).length) ∈ committed
-    · rw [(classify_spec committed unstaged w).2.1 hu hc] at h; cases h
-    · rw [(classify_spec committed unstaged w).2.2 hu hc] at h; cases h
+/-- every working-tree line is covered by one of the two theorems above: it is either a kept line
+    or the `k`-th added line of a change region -/
+theorem work_line_cases {α} (segs : List (Seg α)) (w : Nat) (h1 : 1 ≤ w) (h2 : w ≤ (workOf segs).length) :
+    (∃ pre x post, segs = pre ++ .eq x :: post ∧ w = (workOf pre).length + 1) ∨
+    (∃ pre o n post k, segs = pre ++ .chg o n :: post ∧ k < n.length ∧ w = (workOf pre).length + k + 1) := by
+  induction segs generalizing w with
+  | nil => simp [workOf] at h2; omega
+  | cons s tl ih =>
+    cases s with
+    | eq x =>
+      by_cases hw : w = 1
+      · exact Or.inl ⟨[], x, tl, rfl, by simp [workOf, hw]⟩
+      · simp only [workOf, List.length_cons] at h2
+        rcases ih (w - 1) (by omega) (by omega) with ⟨pre, y, post, he, hw'⟩ | ⟨pre, o, n, post, k, he, hk, hw'⟩
+        · exact Or.inl ⟨.eq x :: pre, y, post, by simp [he], by simp [workOf]; omega⟩
+        · exact Or.inr ⟨.eq x :: pre, o, n, post, k, by simp [he], hk, by simp [workOf]; omega⟩
+    | chg o n =>
+      by_cases hw : w ≤ n.length
+      · exact Or.inr ⟨[], o, n, tl, w - 1, rfl, by omega, by simp [workOf]; omega⟩
+      · simp only [workOf, List.length_append] at h2
+        rcases ih (w - n.length) (by omega) (by omega) with ⟨pre, y, post, he, hw'⟩ | ⟨pre, o', n', post, k, he, hk, hw'⟩
+        · exact Or.inl ⟨.chg o n :: pre, y, post, by simp [he], by simp [workOf]; omega⟩
+        · exact Or.inr ⟨.chg o n :: pre, o', n', post, k, by simp [he], hk, by simp [workOf]; omega⟩
 
-/-! ## 2. The translated coordinate is the true commit line number — for pure insertions -/
+/-- non-vacuity: a script with a pure insertion, a pure deletion and a replacement; hunks as git
+    prints them (`@@ -1,0 +2 @@`, `@@ -3 +3,0 @@`, `@@ -5,2 +5 @@`) -/
+example : let segs : List (Seg Char) := [.eq 'a', .chg [] ['X'], .eq 'b', .chg ['c'] [], .eq 'd', .chg ['e', 'f'] ['Y'], .eq 'g']
+    commitOf segs = ['a', 'b', 'c', 'd', 'e', 'f', 'g'] ∧ workOf segs = ['a', 'X', 'b', 'd', 'Y', 'g'] ∧
+    hunksOf segs = [⟨0, 2, 1⟩, ⟨1, 3, 0⟩, ⟨2, 5, 1⟩] ∧
+    (List.range' 1 6).map (locate (hunksOf segs)) =
+      [.unchanged 1, .added, .unchanged 2, .unchanged 4, .replaces 5, .unchanged 7] := by decide
 
-/-- **coordinates (partial).** Let the working tree `W` be the committed file plus *pure
-    insertions*: `mask[i] = true` marks the inserted (unstaged) lines, `keep W mask` is the
-    committed file and `positionsFrom 1 mask` are the unstaged line numbers git reports. For
-    every working-tree line `w` (1-based) that is not unstaged, the commit line number computed
-    by the code, `w − #{u ∈ unstaged | u < w}`, is exactly the position of that same line in the
-    committed file. The statement for arbitrary unstaged hunks (deletions, replacements) is
-    false for the current code: `witness_unstaged_deletion` (known finding, DESIGN O2). -/
-theorem split_coordinates_partial {α} (W : List α) (mask : List Bool) (w : Nat)
-    (hlen : mask.length = W.length) (hw : 1 ≤ w) (hm : mask[w - 1]? = some false) :
-    let unstaged := positionsFrom 1 mask
-    let c := w - (unstaged.filter (· < w)).length
-    (keep W mask)[c - 1]? = W[w - 1]? ∧ 1 ≤ c := by
-  intro unstaged c
-  have hcount : (unstaged.filter (· < w)).length = truesBefore mask (w - 1) := by
-    have := filter_positions_lt 1 mask (w - 1)
-    have hw' : 1 + (w - 1) = w := by omega
-    rw [hw'] at this
-    exact this
-  have hle := truesBefore_le mask (w - 1)
-  have hc : c - 1 = (w - 1) - truesBefore mask (w - 1) := by
-    show w - (unstaged.filter (· < w)).length - 1 = _
-    rw [hcount]; omega
-  refine ⟨?_, ?_⟩
-  · rw [hc]; exact keep_getElem? W mask (w - 1) hlen hm
-  · show 1 ≤ w - (unstaged.filter (· < w)).length
-    rw [hcount]; omega
+/-- **O2 regression.** Commit `a,b,c,AIX` (the commit adds line 4); the working tree then deletes
+    line `a` (`@@ -1 +0,0 @@`). The AI line is working-tree line 3. Before the repair the
+    translation subtracted unstaged *added* lines only: commit line 3 ∉ {4}, the line was dropped
+    from the note and from INITIAL. Now the removed line is added back: commit line 4, in the note. -/
+theorem regression_unstaged_deletion :
+    Old.classify [4] [] 3 = .dropped ∧
+    hunksOf [Seg.chg ['a'] [], .eq 'b', .eq 'c', .eq 'X'] = [⟨1, 0, 0⟩] ∧
+    classify [4] [⟨1, 0, 0⟩] 3 = .committed 4 ∧
+    splitFile [⟨3, 3, ['s']⟩] [4] [⟨1, 0, 0⟩] = ([(['s'], [4])], []) := by decide
 
-/-- non-vacuity: a 5-line working tree with two inserted lines -/
-example : let mask := [false, true, false, true, false]
-    mask.length = ['a', 'X', 'b', 'Y', 'c'].length ∧ mask[5 - 1]? = some false ∧
-    positionsFrom 1 mask = [2, 4] ∧ keep ['a', 'X', 'b', 'Y', 'c'] mask = ['a', 'b', 'c'] := by decide
-
-/-- **O2 witness.** Commit `a,b,c,AIX` (the commit adds line 4); the working tree then deletes
-    line `a` (an unstaged deletion: git reports no added lines). The AI line is working-tree
-    line 3; the code computes commit line 3 ∉ {4} and drops it. -/
-theorem witness_unstaged_deletion :
-    classify [4] [] 3 = .dropped ∧
-    splitFile [⟨3, 3, ['s']⟩] [4] [] [] = ([], []) := by decide
+/-- regression, replacement above: commit `a,b,AIX` adds line 3; the working tree replaces `a` by two
+    lines (`@@ -1 +1,2 @@`). The AI line is working-tree line 4 → commit line 3 (was: 4 − 2 = 2, dropped,
+    or with the overlap filter 4 − 1 = 3 only by accident of the filter). -/
+theorem regression_unstaged_replacement_above :
+    classify [3] [⟨1, 1, 2⟩] 4 = .committed 3 ∧ Old.classify [3] [1, 2] 4 = .dropped := by decide
 
 /-! ## 3. What reaches the note and INITIAL is sorted, duplicate-free and inside the hunks -/
 
@@ -113,13 +221,15 @@ theorem pushTo_mem (k : Str) (v : Nat) (m : List (Str × List Nat)) (k' : Str) (
         · exact Or.inr h'
 
 /-- invariant of the fold: every committed line number recorded is one of the commit's added
-    lines, every uncommitted one is an unstaged line -/
-def AccOk (committed unstaged : List Nat) (acc : Acc) : Prop :=
-  (∀ k vs x, (k, vs) ∈ acc.com → x ∈ vs → x ∈ committed) ∧
-  (∀ k vs x, (k, vs) ∈ acc.unc → x ∈ vs → x ∈ unstaged)
+    lines, every uncommitted one lies in the new range of an unstaged hunk -/
+def InHunk (hunks : List Hunk) (x : Nat) : Prop := ∃ g ∈ hunks, g.ns ≤ x ∧ x < g.ns + g.nc
 
-theorem stepLine_ok (committed unstaged : List Nat) (author : Str) (acc : Acc) (w : Nat)
-    (h : AccOk committed unstaged acc) : AccOk committed unstaged (stepLine committed unstaged author acc w) := by
+def AccOk (committed : List Nat) (hunks : List Hunk) (acc : Acc) : Prop :=
+  (∀ k vs x, (k, vs) ∈ acc.com → x ∈ vs → x ∈ committed) ∧
+  (∀ k vs x, (k, vs) ∈ acc.unc → x ∈ vs → InHunk hunks x)
+
+theorem stepLine_ok (committed : List Nat) (hunks : List Hunk) (author : Str) (acc : Acc) (w : Nat)
+    (h : AccOk committed hunks acc) : AccOk committed hunks (stepLine committed hunks author acc w) := by
   unfold stepLine
   split
   · rename_i l hcl
@@ -127,7 +237,8 @@ theorem stepLine_ok (committed unstaged : List Nat) (author : Str) (acc : Acc) (
     intro k vs x hm hx
     rcases pushTo_mem author l acc.unc k vs x hm hx with ⟨vs', h', hx'⟩ | ⟨_, rfl⟩
     · exact h.2 k vs' x h' hx'
-    · exact classify_uncommitted_mem _ _ _ _ hcl
+    · obtain ⟨rfl, hg⟩ := classify_uncommitted_mem _ _ _ _ hcl
+      exact hg
   · rename_i c hcl
     refine ⟨?_, h.2⟩
     intro k vs x hm hx
@@ -136,34 +247,29 @@ theorem stepLine_ok (committed unstaged : List Nat) (author : Str) (acc : Acc) (
     · exact classify_committed_mem _ _ _ _ hcl
   · exact h
 
-theorem foldl_stepLine_ok (committed unstaged : List Nat) (author : Str) (ws : List Nat) (acc : Acc)
-    (h : AccOk committed unstaged acc) :
-    AccOk committed unstaged (ws.foldl (stepLine committed unstaged author) acc) := by
+theorem foldl_stepLine_ok (committed : List Nat) (hunks : List Hunk) (author : Str) (ws : List Nat) (acc : Acc)
+    (h : AccOk committed hunks acc) :
+    AccOk committed hunks (ws.foldl (stepLine committed hunks author) acc) := by
   induction ws generalizing acc with
   | nil => exact h
   | cons w ws ih => exact ih _ (stepLine_ok _ _ _ _ _ h)
 
-theorem foldl_stepAttr_ok (committed unstaged : List Nat) (attrs : List LineAttr) (acc : Acc)
-    (h : AccOk committed unstaged acc) :
-    AccOk committed unstaged (attrs.foldl (stepAttr committed unstaged) acc) := by
+theorem foldl_stepAttr_ok (committed : List Nat) (hunks : List Hunk) (attrs : List LineAttr) (acc : Acc)
+    (h : AccOk committed hunks acc) :
+    AccOk committed hunks (attrs.foldl (stepAttr committed hunks) acc) := by
   induction attrs generalizing acc with
   | nil => exact h
   | cons a as ih => exact ih _ (foldl_stepLine_ok _ _ _ _ _ h)
 
-/-- **only added lines reach the note; only unstaged lines reach INITIAL; both lists are strictly
-    increasing (sorted, duplicate-free) and never under the `human` author.** For every input. -/
-theorem split_outputs_wf (attrs : List LineAttr) (committed unstagedRaw pureIns : List Nat) :
-    let r := splitFile attrs committed unstagedRaw pureIns
+/-- **only added lines reach the note; only lines of unstaged hunks reach INITIAL; both lists are
+    strictly increasing (sorted, duplicate-free) and never under the `human` author.** For every input. -/
+theorem split_outputs_wf (attrs : List LineAttr) (committed : List Nat) (hunks : List Hunk) :
+    let r := splitFile attrs committed hunks
     (∀ k vs, (k, vs) ∈ r.1 → k ≠ human ∧ vs.Pairwise (· < ·) ∧ ∀ x ∈ vs, x ∈ committed) ∧
-    (∀ k vs, (k, vs) ∈ r.2 → k ≠ human ∧ vs.Pairwise (· < ·) ∧ ∀ x ∈ vs, x ∈ unstagedRaw) := by
+    (∀ k vs, (k, vs) ∈ r.2 → k ≠ human ∧ vs.Pairwise (· < ·) ∧ ∀ x ∈ vs, InHunk hunks x) := by
   intro r
-  have hacc := foldl_stepAttr_ok committed (filterUnstaged committed unstagedRaw pureIns) attrs {}
+  have hacc := foldl_stepAttr_ok committed hunks attrs {}
     ⟨by intro k vs x h; simp at h, by intro k vs x h; simp at h⟩
-  have hsub : ∀ x ∈ filterUnstaged committed unstagedRaw pureIns, x ∈ unstagedRaw := by
-    intro x hx
-    unfold filterUnstaged at hx
-    rw [mem_sortDedup] at hx
-    exact (List.mem_filter.1 hx).1
   constructor
   · intro k vs hm
     simp only [r, splitFile, List.mem_map, List.mem_filter] at hm
@@ -182,7 +288,7 @@ theorem split_outputs_wf (attrs : List LineAttr) (committed unstagedRaw pureIns 
     refine ⟨by simpa using hk, sortDedup_sorted _, ?_⟩
     intro x hx
     rw [mem_sortDedup] at hx
-    exact hsub x (hacc.2 k0 vs0 x hm0 hx)
+    exact hacc.2 k0 vs0 x hm0 hx
 
 end GitAi.Split3
 
@@ -276,8 +382,11 @@ example : ValidOps2 (cleanSpec [1, 2, 3] (fun _ => none))
 end GitAi.Sys
 
 #print axioms GitAi.Split3.classify_spec
-#print axioms GitAi.Split3.split_coordinates_partial
-#print axioms GitAi.Split3.witness_unstaged_deletion
+#print axioms GitAi.Split3.split_coordinates
+#print axioms GitAi.Split3.changed_line_position
+#print axioms GitAi.Split3.work_line_cases
+#print axioms GitAi.Split3.regression_unstaged_deletion
+#print axioms GitAi.Split3.regression_unstaged_replacement_above
 #print axioms GitAi.Split3.split_outputs_wf
 #print axioms GitAi.Sys.every_commit_exact
 #print axioms GitAi.Sys.pending_line_carried
